@@ -222,6 +222,10 @@ def render_c07(case, c, seed):
     else:
         gen, deps_ty = "", "&(impl Other1 + Other2)"
 
+    generic_target = p.get("target") == "generic"
+    tyname = {"X1": "X<P1>", "X2": "X<P2>"} if generic_target else {"X1": "X1", "X2": "X2"}
+    tyval = {"X1": "X::<P1>(::core::marker::PhantomData)", "X2": "X::<P2>(::core::marker::PhantomData)"} if generic_target else {"X1": "X1", "X2": "X2"}
+
     def target_impl(x):
         ms = []
         for i in range(1, p["nmeth"] + 1):
@@ -234,15 +238,20 @@ def render_c07(case, c, seed):
             body = logging_body(f'String::from("target:{x}::m{i}")', "::vt::addr(deps)", [l for _, _, l in ps], is_async, extra=nested)
             ms.append(f"    pub {fnkw} m{i}{gen}(deps: {deps_ty}{sig_params}) -> String {body}")
         ea = "#[::entrait::entrait]" if static else "#[::entrait::entrait(ref)]"
-        return f"pub struct {x};\n{ea}\n{at}impl TrImpl for {x} {{\n" + "\n".join(ms) + "\n}\n"
+        decl = "" if generic_target else f"pub struct {x};\n"
+        return f"{decl}{ea}\n{at}impl TrImpl for {tyname[x]} {{\n" + "\n".join(ms) + "\n}\n"
 
     glue = ["pub struct A; pub struct B; pub struct NoSel;"]
+    if generic_target:
+        glue.append("pub struct P1; pub struct P2; pub struct X<P>(pub ::core::marker::PhantomData<P>);\n"
+                    "unsafe impl<P> Sync for X<P> {}\nstatic XP1: X<P1> = X(::core::marker::PhantomData);\nstatic XP2: X<P2> = X(::core::marker::PhantomData);")
     sync = " + Sync" if is_async else ""
     for a, x in (("A", "X1"), ("B", "X2")):
         if static:
-            glue.append(f"impl DelegateTr<Self> for {a} {{ type Target = {x}; }}")
+            glue.append(f"impl DelegateTr<Self> for {a} {{ type Target = {tyname[x]}; }}")
         else:
-            glue.append(f"impl AsRef<dyn TrImpl<Self>{sync}> for {a} {{ fn as_ref(&self) -> &(dyn TrImpl<Self>{sync} + 'static) {{ &{x} }} }}")
+            ref = {"X1": "&XP1", "X2": "&XP2"}[x] if generic_target else f"&{x}"
+            glue.append(f"impl AsRef<dyn TrImpl<Self>{sync}> for {a} {{ fn as_ref(&self) -> &(dyn TrImpl<Self>{sync} + 'static) {{ {ref} }} }}")
     scs, descs = [], {}
     n = 0
     for a, x in (("A", "X1"), ("B", "X2")):
